@@ -28,7 +28,8 @@ finally:
 dst = V / "seeded" / sid
 dst.mkdir(parents=True, exist_ok=True)
 for f in ("patch.diff", "demo.py"):
-    shutil.copy(src / f, dst / f)
+    if (src / f).resolve() != (dst / f).resolve():
+        shutil.copy(src / f, dst / f)
 meta = json.loads((src / "meta.json").read_text()) if (src / "meta.json").exists() else {}
 meta["confirmed"] = {"demo_on_clean_tree": out["demo_clean"][0] == 0, "demo_on_mutated_tree_fails": out["demo_mutated"][0] != 0,
                      "patch_applies": out["apply"] == 0, "pinned_suite": out["baseline"]}
